@@ -30,6 +30,7 @@ func runC18(c *Ctx) {
 	c.Clause("C18.11 every rawConn is created with a handler that keeps reading the peer's control stream after SETTINGS")
 	c.Clause("C18.10 a body that ends before its declared Content-Length is io.ErrUnexpectedEOF on the reading side, and a request body whose length differs from ContentLength is refused on the sending side")
 	c.Clause("C18.9 decoded header and trailer fields accumulate under repeated names")
+	c.Clause("C18.13 frames after the trailing HEADERS frame close the connection with H3_FRAME_UNEXPECTED; C18.14 http.NoBody has content length 0; C18.15 the frame parser returns or rejects every frame type it knows")
 	c.Clause("C18.12 the client requests gzip transparently only when the request carries neither Accept-Encoding nor Range; C18.10 (tightened) the short-body error does not depend on the byte count of the last read")
 	c.NotCovered("end-to-end equality of what the handler sees and what the client sent")
 	c.NotCovered("behaviour under packet loss (delegated to the QUIC layer properties)")
@@ -46,6 +47,9 @@ func runC18(c *Ctx) {
 	c.rule("C18.10", func() { c18ShortBodies(c) })
 	c.rule("C18.11", func() { c18ControlStreamReadOn(c) })
 	c.rule("C18.12", func() { c18TransparentGzipOnlyWithoutAcceptEncoding(c) })
+	c.rule("C18.13", func() { c18FramesAfterTrailersCloseConnection(c) })
+	c.rule("C18.14", func() { c18NoBodyIsLengthZero(c) })
+	c.rule("C18.15", func() { c18KnownFrameTypesAreNotSkipped(c) })
 }
 
 func c18Nil(c *Ctx) {
